@@ -9,6 +9,7 @@ Driver for C06. Lines (one output line per input line):
 * `ibc denom=<d> fee=<n> dev=<a|->`
 * `dao funds=<…> fee=<n> denom=<d>`
 * `mintfee kind=<0..8> price=<n> bps=<n> dev=<a>` — integration: one public mint on a real minter of that kind
+* `createfee fk=<0..3> fd=<0|1> md=<0|1> fee=<n> pay=<n> factory=<a>` — integration: CreateMinter on a real factory (creation fee in denom fd, minimum price in denom md)
 * `shufflefee kind=<0..5> fee=<n> pay=<n> minter=<a>` — integration: Shuffle paying `pay` on a factory whose shuffle fee is `fee`
 
 Output: `ok <msgs>` or `err`.
@@ -52,6 +53,13 @@ def c06Line (line : String) : String :=
       match Sg1.checkedFairBurn (if pay = 0 then [] else [⟨NATIVE, pay⟩]) m f none with
       | .ok ms => if !Sg1.allNonzero ms then pure "err" else
           pure s!"ok burned={Sg1.burnedBy ms} pool={Sg1.sentTo FAIRBURN_POOL ms} dev=0 liq={Sg1.sentTo LIQUIDITY_DAO ms} lp={Sg1.sentTo LAUNCHPAD_DAO ms}"
+      | .error _ => pure "err"
+    | some "createfee" => do
+      -- integration: CreateMinter on a real factory whose creation fee is `fee` of denom `fd`, paying exactly `pay` of that denom
+      let fd ← natKv ws "fd"; let f ← natKv ws "fee"; let pay ← natKv ws "pay"; let self ← natKv ws "factory"
+      match Sg1.creationFeeMsgs self fd f (if pay = 0 then [] else [⟨fd, pay⟩]) with
+      | .ok ms => if !Sg1.allNonzero ms then pure "err" else
+          pure s!"ok burned={Sg1.burnedBy ms} pool={Sg1.sentTo FAIRBURN_POOL ms} lp={Sg1.sentTo LAUNCHPAD_DAO ms}"
       | .error _ => pure "err"
     | _ => none
   r.getD "bad-op"
